@@ -5,7 +5,8 @@ import pipeline as P
 from core import BaseProp, Verdict
 from proto import T
 
-RULE = ('random valid tables (0-6 entries, keys of 1-3 words, aliases of 1-4 words, some with parentheses, names containing '
+RULE = ('[one case in twelve: known names that overlap by a word and a text that holds their union, also at its very end] '
+        'random valid tables (0-6 entries, keys of 1-3 words, aliases of 1-4 words, some with parentheses, names containing '
         'and/or/with, shared leading/trailing words, letters whose lower case is longer) x texts of 1-12 items (name variants in '
         'random case with random Unicode blank runs, operators, parentheses, unknown words; one case in four: a grammar-derived expression after 1-2 token edits - near-valid, sometimes still accepted), default and simple tokenizer, strict '
         'and not; compared: the (kind, symbol, words) triples of Licensing.tokenize and the parse outcome with the model; Spec '
@@ -26,8 +27,27 @@ class Prop(BaseProp):
             toks = ['('] + toks + [')']
         return {'table': table, 'text': ' '.join(toks), 'simple': rng.random() < 0.3, 'strict': False}
 
+    def case_overlap(self, rng):
+        """known names that overlap by a word (neither inside the other) and a text that holds their union - at its very end, in
+        the middle, in parentheses: whichever name is recognised, the words of the other that are left over are still there"""
+        ws = rng.sample(['gnu', 'lesser', 'gpl', '2.0', 'v3', 'free', 'lib', 'x1'], rng.randint(3, 5))
+        j = rng.randint(1, len(ws) - 2)
+        i = rng.randint(j, len(ws) - 2)
+        a, b = ' '.join(ws[:i + 1]), ' '.join(ws[j:])
+        table = [['lic-a', [a], False], ['lic-b', [b], False], ['mit', [], False]]
+        if rng.random() < 0.5:
+            table.reverse()
+        text = rng.choice(['', 'mit or ', '(mit) and ', 'mit and (']) + gen.variant(rng, ' '.join(ws))
+        if text.count('(') > text.count(')'):
+            text += ')'
+        text += rng.choice(['', '', ' ', ' \t', ' or mit', ' and mit'])
+        return {'table': table, 'text': text, 'simple': False, 'strict': rng.random() < 0.3}
+
     def case_random(self, rng):
-        if rng.random() < 0.25:
+        r = rng.random()
+        if r < 0.08:
+            return self.case_overlap(rng)
+        if r < 0.3:
             return self.case_near_valid(rng)
         table = gen.gen_table(rng)
         text = gen.gen_text(rng, table, bad=0.02)
@@ -50,6 +70,9 @@ class Prop(BaseProp):
         if P.is_ok(il):
             if rep[2] != 1:
                 return Verdict('spec', case, str(rep[2][1]), impl=[il, ip], model=[ml, mp], tags=tags)
+        if not P.is_ok(il) and P.is_ok(ip) and ip[0] == 'ok':
+            # parse() reads the very tokens tokenize() yields: when those cannot be produced, an expression can only have lost words
+            return Verdict('spec', case, 'parse returns an expression although Licensing.tokenize raises for the same text and flags', impl=[il, ip], model=[ml, mp], tags=tags)
         # correspondence on the projection C01 reads
         a = [P.ptok_proj(p) for p in il[1]] if P.is_ok(il) else P.err_class(il)
         b = [P.ptok_proj(p) for p in ml[1]] if P.is_ok(ml) else P.err_class(ml)
